@@ -3,10 +3,19 @@ import PSO.Proofs.BatteriesSpec
 /-!
 # C15 — batteries behave like the Python containers they mimic, on every replica
 
-`Repl*.step` is the battery method body (tree with D12 repaired), `Ref*.step` the mimicked builtin
-given the same call (both executed by `driver batteries` and diffed against the real classes /
+`Repl*.step` is the battery method body (tree with D12 and D20 repaired), `Ref*.step` the mimicked
+builtin given the same call (both executed by `driver batteries` and diffed against the real classes /
 builtins on every check).  `runOps` applies an arbitrary operation sequence over ALL public methods
 with arbitrary integer arguments, optional arguments present or omitted.
+
+`ReplSet.pop` (D20 repaired, /repo 56b6cb5) removes `min(data, key=(type name, repr))`: on ints the
+element with the smallest decimal string, `PySet.minRepr` — a function of the CONTENTS.  The reference
+for `pop` is the `set` ABSTRACTION (`RefSet.step choose`: some member, chosen by a function of the
+abstract set, is returned and exactly it is removed); the battery `ReplSet.step` is shown to be that
+abstraction with `choose := PySet.minRepr`, hence replicas (also rebuilt from snapshots) are equal:
+`C15_set_replicas_equal` is now a FULL statement.  `ReplSet.stepWith choose` (any rule) and the
+counterexample are kept: they document why the old `self.__data.pop()` — whose choice is not a function
+of the abstract set — made replicas diverge.
 -/
 namespace PSO.C15
 open PSO.Py PSO.Batteries PSO.Py.PyHeap
@@ -39,13 +48,30 @@ theorem C15_dict_refines_dict (ops : List DictOp) (s : ReplDict.State) :
     (fun s t o h => by subst h; exact dict_step s o) ops s s.data rfl
   exact ⟨this.2, this.1⟩
 
-/-- ReplSet ↔ `set`, for every way `set.pop()` may choose as a function of the abstract set. -/
-theorem C15_set_refines_set (choose : PySet.S → Int) (ops : List SetOp) (s : ReplSet.State) :
-    (runOps (ReplSet.step choose) s ops).2 = (runOps (RefSet.step choose) s.data ops).2 ∧
-    (runOps (ReplSet.step choose) s ops).1.data = (runOps (RefSet.step choose) s.data ops).1 := by
-  have := runOps_sim (ReplSet.step choose) (RefSet.step choose) (fun s c => s.data = c)
+/-- ReplSet (with ANY rule `choose` for `pop`) ↔ the `set` abstraction with the same rule. -/
+theorem C15_set_refines_set_any_choice (choose : PySet.S → Int) (ops : List SetOp) (s : ReplSet.State) :
+    (runOps (ReplSet.stepWith choose) s ops).2 = (runOps (RefSet.step choose) s.data ops).2 ∧
+    (runOps (ReplSet.stepWith choose) s ops).1.data = (runOps (RefSet.step choose) s.data ops).1 := by
+  have := runOps_sim (ReplSet.stepWith choose) (RefSet.step choose) (fun s c => s.data = c)
     (fun s t o h => by subst h; exact set_step choose s o) ops s s.data rfl
   exact ⟨this.2, this.1⟩
+
+/-- ReplSet as implemented ↔ `set`: same results (KeyError of `remove`/`pop`, AssertionError of `reset`)
+and same contents for all operation sequences; `pop` returns a member, removes exactly it (see
+`C15_set_laws`), and the member is the one with the smallest `repr` (`C15_set_pop_choice`). -/
+theorem C15_set_refines_set (ops : List SetOp) (s : ReplSet.State) :
+    (runOps ReplSet.step s ops).2 = (runOps (RefSet.step PySet.minRepr) s.data ops).2 ∧
+    (runOps ReplSet.step s ops).1.data = (runOps (RefSet.step PySet.minRepr) s.data ops).1 := by
+  rw [set_step_funext]; exact C15_set_refines_set_any_choice PySet.minRepr ops s
+
+/-- the implemented choice: a member of the set with the smallest `repr` key (Python string order on
+the decimal representation); the method body equals the generic battery with that rule. -/
+theorem C15_set_pop_choice (s : PySet.S) (h : s ≠ []) :
+    PySet.minRepr s ∈ s ∧ (∀ y ∈ s, ¬ PySet.reprKey y < PySet.reprKey (PySet.minRepr s)) ∧
+    ReplSet.step = ReplSet.stepWith PySet.minRepr :=
+  ⟨minRepr_mem s h, minRepr_min s, set_step_funext⟩
+
+example : PySet.minRepr [-2, -1, 2, 10, 100] = -1 ∧ PySet.minRepr [2, 10, 100] = 10 := by decide
 
 /-- ReplQueue(maxsize) ↔ `queue.Queue(maxsize)` (non-blocking calls, `Full` ↦ `False`, `Empty` ↦
 default): same results incl. `full()` for `maxsize = 0` (D12 repaired), same contents and bound. -/
@@ -186,28 +212,32 @@ theorem C15_replicas_equal :
    fun s0 f o1 o2 => (C15_replicas_equal_generic _ _ _ queue_roundtrip s0 f o1 o2).1,
    fun s0 f o1 o2 => (C15_replicas_equal_generic _ _ _ pq_roundtrip s0 f o1 o2).1⟩
 
-/- FULL statement for ReplSet (what the property says): "two replicas of a ReplSet that apply the same
-   operations — one of them possibly rebuilt from a snapshot — return the same results and hold the same
-   contents".  It is FALSE of the real code (D20, `batteries.ReplSet.pop:layout-dependent`): CPython's
-   `set.pop()` is not a function of the set's contents.  What is proved instead: -/
-
-/-- PARTIAL (excluding hypothesis: on both replicas `set.pop()` picks its element by one and the same
-function `choose` of the ABSTRACT set — missing: CPython's `set.pop` does not satisfy this, see the
-counterexample below and the witness `harness/witness/d20_replset_pop_layout.py`). -/
-theorem C15_set_replicas_equal_partial (choose : PySet.S → Int) (s0 f : ReplSet.State) (ops1 ops2 : List SetOp) :
-    let a := runOps (ReplSet.step choose) s0 (ops1 ++ ops2)
-    let b := runOps (ReplSet.step choose) (ReplSet.deserialize (ReplSet.serialize (runOps (ReplSet.step choose) s0 ops1).1) f) ops2
-    b.1 = a.1 ∧ a.2 = (runOps (ReplSet.step choose) s0 ops1).2 ++ b.2 :=
+/-- FULL statement for ReplSet (D20 repaired): replica A applies `ops1 ++ ops2`; replica B installs A's
+snapshot taken after `ops1` into any instance `f` and applies `ops2`: B ends in A's state (same contents)
+and returned A's results for `ops2` — including every `pop`. -/
+theorem C15_set_replicas_equal (s0 f : ReplSet.State) (ops1 ops2 : List SetOp) :
+    let a := runOps ReplSet.step s0 (ops1 ++ ops2)
+    let b := runOps ReplSet.step (ReplSet.deserialize (ReplSet.serialize (runOps ReplSet.step s0 ops1).1) f) ops2
+    b.1 = a.1 ∧ a.2 = (runOps ReplSet.step s0 ops1).2 ++ b.2 :=
   C15_replicas_equal_generic _ _ _ set_roundtrip s0 f ops1 ops2
 
-/-- Without that hypothesis the statement fails: two replicas whose `pop` choices are both legal
-(always a member of the set) but differ — as CPython's do after a snapshot rebuild — diverge on
-`add 1; add 8; pop` in result and in contents. -/
+/-- the same for every rule by which `pop` might choose AS A FUNCTION OF THE ABSTRACT SET (used on both
+replicas): what any repair of D20 has to provide, and what `set.pop()` did not. -/
+theorem C15_set_replicas_equal_any_choice (choose : PySet.S → Int) (s0 f : ReplSet.State) (ops1 ops2 : List SetOp) :
+    let a := runOps (ReplSet.stepWith choose) s0 (ops1 ++ ops2)
+    let b := runOps (ReplSet.stepWith choose) (ReplSet.deserialize (ReplSet.serialize (runOps (ReplSet.stepWith choose) s0 ops1).1) f) ops2
+    b.1 = a.1 ∧ a.2 = (runOps (ReplSet.stepWith choose) s0 ops1).2 ++ b.2 :=
+  C15_replicas_equal_generic _ _ _ set_roundtrip s0 f ops1 ops2
+
+/-- Why the code before 56b6cb5 failed (kept as documentation; witness
+`harness/witness/d20_replset_pop_layout.py` trips on the parent commit): when the two replicas do NOT
+choose by one function of the abstract set — both choices legal (always a member) but different, as
+CPython's `set.pop()` after a snapshot rebuild — they diverge on `add 1; add 8; pop` in result and contents. -/
 theorem C15_set_replicas_equal_counterexample :
     ∃ (chooseA chooseB : PySet.S → Int),
       (∀ s, s ≠ [] → chooseA s ∈ s) ∧ (∀ s, s ≠ [] → chooseB s ∈ s) ∧
-      ∃ ops, (runOps (ReplSet.step chooseA) ReplSet.init ops).2 ≠ (runOps (ReplSet.step chooseB) ReplSet.init ops).2 ∧
-             (runOps (ReplSet.step chooseA) ReplSet.init ops).1 ≠ (runOps (ReplSet.step chooseB) ReplSet.init ops).1 := by
+      ∃ ops, (runOps (ReplSet.stepWith chooseA) ReplSet.init ops).2 ≠ (runOps (ReplSet.stepWith chooseB) ReplSet.init ops).2 ∧
+             (runOps (ReplSet.stepWith chooseA) ReplSet.init ops).1 ≠ (runOps (ReplSet.stepWith chooseB) ReplSet.init ops).1 := by
   refine ⟨fun s => s.headD 0, fun s => s.getLastD 0, ?_, ?_, [.add 1, .add 8, .pop], by decide, by decide⟩
   · intro s hs; cases s with
     | nil => exact absurd rfl hs
@@ -245,13 +275,20 @@ theorem C15_dict_map_laws (d : PyDict.D) (k v k' : Int) :
 /-- the set representation stays canonical (strictly increasing) under every operation sequence and
 every choice made by `pop`, and canonical representations with the same members are EQUAL — so
 "same contents" is equality of states and a function of the state is a function of the abstract set. -/
-theorem C15_set_canonical (choose : PySet.S → Int) (ops : List SetOp) (s : ReplSet.State)
+theorem C15_set_canonical_any_choice (choose : PySet.S → Int) (ops : List SetOp) (s : ReplSet.State)
     (h : s.data.Pairwise (· < ·)) :
-    (runOps (ReplSet.step choose) s ops).1.data.Pairwise (· < ·) ∧
-    (∀ t : PySet.S, t.Pairwise (· < ·) → (∀ x, x ∈ (runOps (ReplSet.step choose) s ops).1.data ↔ x ∈ t) →
-      (runOps (ReplSet.step choose) s ops).1.data = t) := by
-  have hw := runOps_inv (ReplSet.step choose) (fun s => SetWF s.data) (set_step_wf choose) ops s h
+    (runOps (ReplSet.stepWith choose) s ops).1.data.Pairwise (· < ·) ∧
+    (∀ t : PySet.S, t.Pairwise (· < ·) → (∀ x, x ∈ (runOps (ReplSet.stepWith choose) s ops).1.data ↔ x ∈ t) →
+      (runOps (ReplSet.stepWith choose) s ops).1.data = t) := by
+  have hw := runOps_inv (ReplSet.stepWith choose) (fun s => SetWF s.data) (set_step_wf choose) ops s h
   exact ⟨hw, fun t ht hm => set_ext _ t hw ht hm⟩
+
+/-- … in particular for the battery as implemented. -/
+theorem C15_set_canonical (ops : List SetOp) (s : ReplSet.State) (h : s.data.Pairwise (· < ·)) :
+    (runOps ReplSet.step s ops).1.data.Pairwise (· < ·) ∧
+    (∀ t : PySet.S, t.Pairwise (· < ·) → (∀ x, x ∈ (runOps ReplSet.step s ops).1.data ↔ x ∈ t) →
+      (runOps ReplSet.step s ops).1.data = t) := by
+  rw [set_step_funext]; exact C15_set_canonical_any_choice PySet.minRepr ops s h
 
 example : ReplSet.init.data.Pairwise (· < ·) := List.Pairwise.nil
 
